@@ -7,7 +7,7 @@ import json, os, shutil, subprocess, sys, tempfile
 from pathlib import Path
 
 SRC = Path(sys.argv[1]); ONLY = set(a for a in sys.argv[2:] if not a.startswith("--"))
-RENAME = {"A": "C", "B": "D"} if "--wave2" in sys.argv else ({"A": "E", "B": "F"} if "--wave3" in sys.argv else ({"A": "G", "B": "H"} if "--wave4" in sys.argv else ({"A": "I", "B": "J"} if "--wave5" in sys.argv else ({"A": "K", "B": "L"} if "--wave6" in sys.argv else {"A": "A", "B": "B"}))))
+RENAME = {"A": "C", "B": "D"} if "--wave2" in sys.argv else ({"A": "E", "B": "F"} if "--wave3" in sys.argv else ({"A": "G", "B": "H"} if "--wave4" in sys.argv else ({"A": "I", "B": "J"} if "--wave5" in sys.argv else ({"A": "K", "B": "L"} if "--wave6" in sys.argv else ({"A": "M", "B": "N"} if "--wave7" in sys.argv else {"A": "A", "B": "B"})))))
 OUT = Path("/verif/seeded")
 wt = Path(tempfile.mkdtemp(prefix="confirm_wt_")) / "wt"
 subprocess.run(["git", "-C", "/repo", "worktree", "add", "-q", "--detach", str(wt), "HEAD"], check=True)
